@@ -69,6 +69,49 @@ def rule_reported_length(fb, res, rid="C04-R6"):
                         strip_all_casts(facts.expand(ctor3, ln)).get("decl") == sizep}
                 allp = paths.enumerate_paths(ctor3)
                 every = bool(sets) and all(any(x["id"] in sets for x in q.calls()) for q in allp)
+            # ... and those bytes are the caller's, unless there are none or the payload is kept as `invalid`: the copy is skipped for no other reason
+            typep, datap = ctor3.params[0]["decl"], ctor3.params[1]["decl"]
+
+            def excuse(a):
+                """atom a (holding where the copy happens) is `size != 0` or `type != invalid`"""
+                if a[0] == "truth":
+                    return a[2] is True and strip_all_casts(facts.expand(ctor3, a[3])).get("decl") == sizep
+                if a[0] == "cmp":
+                    for x, y, op in ((a[4], a[5], a[2]), (a[5], a[4], facts._flip_op(a[2]))):
+                        xs = strip_all_casts(facts.expand(ctor3, x))
+                        while xs.get("k") == "construct" and len(xs.get("args", [])) == 1:
+                            xs = strip_all_casts(xs["args"][0])
+                        if xs.get("decl") == sizep and const_value(strip_all_casts(y)) == 0 and op in ("!=", ">"):
+                            return True
+                        if xs.get("decl") == typep and op == "!=" and "invalid" in canon(y):
+                            return True
+                return False
+            kept = None
+            why_k = ""
+            copies = [c for c in ctor3.calls() if facts.copy_args(c) and datap in reads(facts.copy_args(c)[1])] if ctor3.cfg_raw else []
+            for c in copies:
+                atoms = [a for a in MustFacts(ctor3).at(c)]
+                badg = [a for a in atoms if not excuse(a)]
+                kept = (kept is None or kept) and not badg
+                if badg:
+                    why_k = "the copy is made only under `%s`" % (badg[0][1][:60] + (" %s %s" % (badg[0][2], str(badg[0][3])[:30]) if badg[0][0] == "cmp" else ""))
+            for i in ctor3.raw.get("inits", []) or []:
+                if i.get("field") == bufq and isinstance(i.get("e"), dict) and datap in reads(i["e"]):
+                    conds = [x for x in walk(i["e"]) if x.get("k") == "cond"]
+                    if not conds:
+                        kept = True if kept is None else kept  # unconditional range construction
+                    for cn in conds:
+                        copy_arm_a = datap in reads(cn["a"])
+                        atoms = facts.conjuncts(cn["c"], copy_arm_a, ctor3)
+                        atoms = [a for a in atoms if not (a[0] == "truth" and strip_all_casts(a[3]).get("k") == "bin")]
+                        badg = [a for a in atoms if not excuse(a)]
+                        kept = (kept is None or kept) and not badg and bool(atoms)
+                        if badg:
+                            why_k = "the bytes are taken only under `%s`" % badg[0][1][:70]
+            res.check(bool(kept), rid, "%s(type,data,size):bytes-kept" % base.replace("ASAM::CMP::", ""), ctor3.loc,
+                      "the caller's bytes are copied in unless there are none or the payload is kept as invalid",
+                      "%s(type, data, size) does not keep the caller's bytes in every case it should (%s): a payload of a valid type reads back as zeros" %
+                      (base, why_k or "no copy of the data found"))
             res.check(every, rid, "%s(type,data,size):length" % base.replace("ASAM::CMP::", ""), ctor3.loc,
                       "the payload buffer holds exactly `size` bytes on every path (also when the bytes are not kept)",
                       "%s(type, data, size) leaves the buffer shorter than `size` on some path: getLength() then differs from the wire length, and the "
